@@ -297,6 +297,83 @@ def r6_bridge(rep, facts):
         rep.check(R, 'DatetimeFromString::visit_str', ok, 's.parse()', 'DatetimeFromString no longer parses with str::parse', facts.loc(b))
 
 
+LEGAL_SHAPES = {('S', 'S', 'S'): 'offset date-time', ('S', 'S', 'N'): 'local date-time', ('S', 'N', 'N'): 'local date', ('N', 'S', 'N'): 'local time'}
+
+
+def datetime_sites(facts):
+    """[(def path, 'fn'|'closure', line, set of (date, time, offset) option shapes, #paths)] for every place that builds a Datetime struct literal"""
+    from .forkinterp import ForkInterp, option_shape
+    out = []
+    for d, b in sorted(facts.bodies.items()):
+        if '::test' in d:
+            continue
+        hits = [n for n in walk(b['body']) if n.get('k') == 'struct' and (n.get('path') or '').endswith('datetime::Datetime')]
+        if not hits:
+            continue
+        clos = [n for n in walk(b['body']) if n.get('k') == 'closure']
+        units = []
+        for h in hits:
+            owner = None
+            for c in clos:
+                if any(x is h for x in walk(c['body'])):
+                    owner = c
+            if not any(u is owner for u in units):
+                units.append(owner)
+        for u in units:
+            fi = ForkInterp()
+            res = fi.run(u['body'] if u else b['body'], (u or b).get('params', []))
+            shapes = set()
+            for r in res:
+                sh = option_shape(r, ['date', 'time', 'offset'])
+                if sh is None:
+                    continue
+                # '?' = could be either
+                cands = [()]
+                for x in sh:
+                    cands = [c + (y,) for c in cands for y in (('S', 'N') if x == '?' else (x,))]
+                shapes |= set(cands)
+            out.append((d, 'closure' if u else 'fn', (u or b).get('l') or b.get('line'), shapes, fi.paths))
+    return out
+
+
+def r7_shapes(rep, facts, rid='C12/R7'):
+    R = rep.rule(rid, 'one set of date-time shapes everywhere: every place that builds a Datetime (the grammar parser, the standalone parser, the '
+                 'conversions) can only produce offset date-time, local date-time, local date or local time — decided by enumerating the paths of '
+                 'each constructor over the Some/None-ness of (date, time, offset) — and that is the set type_name / the serde bridge handles', floor=5)
+    sites = datetime_sites(facts)
+    allsh = set()
+    for d, kind, line, shapes, paths in sites:
+        b = facts.body(d)
+        bad = sorted(shapes - set(LEGAL_SHAPES))
+        allsh |= shapes
+        names = {'S': 'Some', 'N': 'None'}
+        rep.check(R, f'{d}|shapes', not bad and bool(shapes), f'{paths} path(s): ' + ', '.join(LEGAL_SHAPES[s] for s in sorted(shapes) if s in LEGAL_SHAPES),
+                  f'`{d}` can build a Datetime with ' + '; '.join(f'date={names[s[0]]}, time={names[s[1]]}, offset={names[s[2]]}' for s in bad) +
+                  ': not one of the four TOML kinds (e.g. a date directly followed by an offset is accepted; printing it gives text the other parser refuses, '
+                  'and Datetime::type_name reaches unreachable!)', f'{facts.rel(b.get("file"))}:{line}')
+    for tag, pred in (('toml_edit::parser', lambda d: d.startswith('toml_edit::parser::') or 'From<toml_datetime::datetime::Time>' in d),
+                      ('FromStr', lambda d: 'core::str::traits::FromStr' in d)):
+        got = set()
+        for d, kind, line, shapes, paths in sites:
+            if pred(d):
+                got |= shapes
+        if tag == 'toml_edit::parser' and not any(d.startswith('toml_edit::parser::') for d, *_ in sites):
+            continue
+        rep.check(R, f'{tag}|covers-all-kinds', set(LEGAL_SHAPES) <= got, 'all four kinds can be produced',
+                  f'{tag} can no longer produce {[LEGAL_SHAPES[s] for s in sorted(set(LEGAL_SHAPES) - got)]}')
+    tn = 'toml_datetime::datetime::Datetime::type_name'
+    if facts.has_body(tn):
+        b = facts.body(tn)
+        arms = set()
+        for m in walk(b['body']):
+            if m.get('k') == 'match':
+                for arm in m['arms']:
+                    p = arm['pat']
+                    if p.get('k') == 'p_tuple' and len(p['pats']) == 3 and all(x.get('k') == 'p_expr' and x['e'].get('lk') == 'bool' for x in p['pats']):
+                        arms.add(tuple('S' if x['e']['v'] else 'N' for x in p['pats']))
+        rep.check(R, 'Datetime::type_name|arms', arms == set(LEGAL_SHAPES), f'handles {sorted(arms)}', f'type_name handles {sorted(arms)}; the constructors produce {sorted(LEGAL_SHAPES)}', facts.loc(b))
+
+
 def rules(rep, facts):
     if 'toml_datetime' not in facts.crates:
         return
@@ -310,6 +387,7 @@ def rules(rep, facts):
     r3b_digit(rep, facts)
     r4_truncation(rep, facts)
     r5_printer(rep, facts)
+    r7_shapes(rep, facts)
     dfeats = set(facts.crates['toml_datetime'].get('features', []))
     if 'serde' in dfeats and 'toml_edit' in facts.crates and 'serde' in feats:
         r6_bridge(rep, facts)
